@@ -2691,6 +2691,9 @@ impl Connection {
                 self.events.push_back(Event::Connected);
                 self.state = State::Established;
                 trace!("established");
+                // Until now the loss detection timer disregarded 1-RTT packets already in flight
+                // (e.g. a server's 0.5-RTT data); cover them from here on
+                self.set_loss_detection_timer(now);
                 Ok(())
             }
             Header::Initial(InitialHeader {
